@@ -335,9 +335,10 @@ func runAggr(f []string) (obs string) {
 	})
 	switch format {
 	case "phout", "phoutid":
-		conf := netsample.PhoutConfig{
-			Destination: "out", ID: format == "phoutid", SampleQueueSize: q,
-			Buffer: coreutil.BufferSizeConfig{BufferSize: datasize.ByteSize(bufsize)},
+		conf := netsample.DefaultPhoutConfig() // no destination, no ids, 8 MB buffer
+		conf.Destination, conf.ID, conf.SampleQueueSize = "out", format == "phoutid", q
+		if bufsize != 0 {
+			conf.Buffer = coreutil.BufferSizeConfig{BufferSize: datasize.ByteSize(bufsize)}
 		}
 		switch dest {
 		case "file", "ro":
@@ -742,6 +743,9 @@ func genAggr(r *vh.Rand, tier string) []string {
 	if tier == "thorough" {
 		stalls = []int{500, 1000, 2000, 3000, 4000, 6000, 8000, 12000}
 	}
+	// Run idle for more than a second before the cancel (the idle flush of phout, the flush ticker of the others);
+	// the 1 ms "stall" only makes the case run concurrently with the others
+	out = append(out, fmt.Sprintf("aggr %s %d 2 3 pre 1200 4096 %d 1", r.Pick([]string{"phout", "phoutid", "json", "tabc"}), r.Range(6, 16), r.U64()%1000000))
 	for i, ms := range stalls {
 		format := []string{"phoutid", "json", "phout", "tab"}[i%4]
 		out = append(out, fmt.Sprintf("aggr %s %d %d %d free 0 4096 %d %d", format, r.Range(1, 4), r.Range(2, 4), r.Range(80, 120), r.U64()%1000000, ms))
